@@ -342,5 +342,7 @@ def run(ctx):
     _run_rules(ctx)
     from .. import boundaries
     boundaries.check(ctx, 'C19.RB', 'C19')
+    from . import C14
+    C14.r7_no_loss(ctx, 'C19.R9', C14.GOAWAY_SLOT, floor=3)  # a GOAWAY that is due is never dropped under write back-pressure
     boundaries.check_guards(ctx, 'C19.RG', 'C19')
     boundaries.check_calls(ctx, 'C19.RC', 'C19')
